@@ -1,6 +1,222 @@
-From Verif Require Import Common.Base Generated.C05BackoffValidate C05.Model C05.Proofs.
+(* C05/Properties.v — the property theorems, nothing else.  Each is closed by [exact lemma] and
+   followed by Print Assumptions (captured into the evidence by the check driver).
+
+   Every theorem quantifies over EVERY scenario [sc] (back-off configuration, per-attempt timeout,
+   signal, payload, caller deadline, cancel instant, shutdown instant, random draws, resolution of
+   simultaneous select branches) and EVERY finite script of backend outcomes (success, transient,
+   permanent, throttle d, partial failure with remainder, shutdown-classified, wrapped, context
+   expiry arises from the timeout/deadline/cancel instants).  [steps_of sc script] is the list of
+   calls of the exporter function made by the model of retrySender.Send, [verdict_of] the class of
+   the error it returns.  [nth_error (steps_of sc script) k = Some st] reads "attempt k is made
+   and st records it". *)
+From Verif Require Import Common.Base Generated.C05BackoffValidate C05.Model C05.Proofs C05.Proofs2.
 Local Open Scope Z_scope.
-Theorem timeout_per_attempt_step : forall sc n now pl cur a,
-  s_deadline (do_step sc n now pl cur a) = att_deadline sc now.
+
+(* ---- clause 1: retried if and only if ... ---------------------------------------------------------- *)
+
+(* After attempt k the loop goes on to another attempt iff: retrying is enabled, attempt k failed
+   with a non-permanent error, the back-off did not say Stop, the next attempt still fits in the
+   elapsed budget (end + delay <= max_elapsed when set) and in the request's deadline, the wait
+   ended by its timer (not by the context, not by shutdown) and the stop channel is still open when
+   the timer has fired (the non-blocking re-check added by fix 9628cae8b). *)
+Theorem retry_iff : forall sc script k st,
+  nth_error (steps_of sc script) k = Some st -> (s_dec st = DRetry <-> retry_conditions sc st).
+Proof. exact retry_iff_l. Qed.
+
+(* the same in the property's own words, for configurations accepted by BackOffConfig.Validate
+   (the library's Stop value cannot occur there) *)
+Theorem retry_iff_validated : forall sc script k st,
+  valid_config (sc_cfg sc) -> valid_draw (draw_at sc k) ->
+  nth_error (steps_of sc script) k = Some st ->
+  (s_dec st = DRetry <->
+   c_enabled (sc_cfg sc) = true /\ (exists ch, s_res st = RErr ch /\ is_permanent ch = false) /\
+   fits_elapsed sc (s_end st + s_delay st) /\ fits_deadline sc (s_end st + s_delay st) /\ s_wake st = WTimer /\
+   stop_closed_at sc (s_end st + s_delay st) = false).
+Proof. exact retry_iff_validated_l. Qed.
+
+(* ... and attempt k+1 is made iff those conditions hold (and the script has a (k+1)-th outcome). *)
+Theorem attempt_happens_iff : forall sc script k st,
+  nth_error (steps_of sc script) k = Some st ->
+  ((exists st', nth_error (steps_of sc script) (S k) = Some st') <->
+   (retry_conditions sc st /\ (S k < length script)%nat)).
+Proof. exact attempt_happens_iff_l. Qed.
+
+(* "the wait ended by its timer", spelled out for instants that differ: neither the end of the
+   caller's context nor the shutdown instant falls before the end of the wait. *)
+Theorem wake_timer_iff : forall sc script k st,
+  nth_error (steps_of sc script) k = Some st ->
+  (forall c, ctx_done sc = Some c -> Z.max (s_end st) c <> s_end st + s_delay st) ->
+  (forall s, sc_stop sc = Some s -> Z.max (s_end st) s <> s_end st + s_delay st) ->
+  (s_wake st = WTimer <->
+   (forall c, ctx_done sc = Some c -> s_end st + s_delay st < Z.max (s_end st) c) /\
+   (forall s, sc_stop sc = Some s -> s_end st + s_delay st < Z.max (s_end st) s)).
+Proof. exact wake_timer_iff_l. Qed.
+
+(* consequences: a retry never starts beyond the elapsed budget or the deadline; with retry
+   disabled there is at most one attempt *)
+Theorem retry_within_limits : forall sc script k st st',
+  nth_error (steps_of sc script) k = Some st -> nth_error (steps_of sc script) (S k) = Some st' ->
+  fits_elapsed sc (s_start st') /\ fits_deadline sc (s_start st').
+Proof. exact retry_within_limits_l. Qed.
+
+Theorem disabled_single_attempt : forall sc script,
+  c_enabled (sc_cfg sc) = false -> (length (steps_of sc script) <= 1)%nat.
+Proof. exact disabled_single_attempt_l. Qed.
+
+(* ---- clause 2: after a success or a permanent error no further attempt -------------------------------- *)
+Theorem no_attempt_after_verdict : forall sc script k st,
+  nth_error (steps_of sc script) k = Some st ->
+  (s_res st = ROk \/ exists ch, s_res st = RErr ch /\ is_permanent ch = true) ->
+  length (steps_of sc script) = S k /\ nth_error (steps_of sc script) (S k) = None /\
+  verdict_of sc script =
+    match s_res st with ROk => VOk | RErr _ => if c_enabled (sc_cfg sc) then VPermanent else VRaw end.
+Proof. exact no_attempt_after_verdict_l. Qed.
+
+(* more generally: whatever makes the loop stop, nothing follows and that is the returned class *)
+Theorem verdict_is_final : forall sc script k st v,
+  nth_error (steps_of sc script) k = Some st -> s_dec st = DStop v ->
+  length (steps_of sc script) = S k /\ nth_error (steps_of sc script) (S k) = None /\ verdict_of sc script = v.
+Proof. exact verdict_is_final_l. Qed.
+
+(* ---- clause 3: the wait ------------------------------------------------------------------------------- *)
+
+(* the time between the end of attempt k and the start of attempt k+1 is at least the delay the
+   backend asked for (first throttle error in the chain) *)
+Theorem wait_lower_bound : forall sc script k st st' ch d,
+  nth_error (steps_of sc script) k = Some st -> nth_error (steps_of sc script) (S k) = Some st' ->
+  s_res st = RErr ch -> throttle_of ch = Some d ->
+  d <= s_start st' - s_end st /\ s_start st' - s_end st = Z.max (s_next st) d.
+Proof. exact wait_lower_bound_l. Qed.
+
+(* for a configuration accepted by BackOffConfig.Validate and a draw in [0,1): the interval used at
+   attempt k is cur_seq k (initial, then min(cur*multiplier, max_interval) truncated, reset to
+   initial when it reaches 0), the value returned by NextBackOff lies in
+   (cur*(1-r) - 1, cur*(1+r) + 1], is never backoff.Stop, the delay is at least that value and equals
+   it when the error carries no throttle. *)
+Theorem wait_envelope : forall sc script k st,
+  valid_config (sc_cfg sc) -> c_enabled (sc_cfg sc) = true -> valid_draw (draw_at sc k) ->
+  nth_error (steps_of sc script) k = Some st ->
+  let rn := fst (c_rf (sc_cfg sc)) in
+  let rd := snd (c_rf (sc_cfg sc)) in
+  s_cur st = cur_seq (sc_cfg sc) k /\
+  0 <= s_cur st <= Z.max (c_init (sc_cfg sc)) (c_maxint (sc_cfg sc)) /\
+  0 <= s_next st /\ s_next st <> backoff_stop /\
+  s_cur st * (rd - rn) < (s_next st + 1) * rd /\
+  s_next st * rd <= s_cur st * (rd + rn) + rd /\
+  s_next st <= s_delay st /\
+  (forall ch, s_res st = RErr ch -> throttle_of ch = None -> s_delay st = s_next st).
+Proof. exact wait_envelope_l. Qed.
+
+Theorem next_start : forall sc script k st st',
+  nth_error (steps_of sc script) k = Some st -> nth_error (steps_of sc script) (S k) = Some st' ->
+  s_start st' = s_end st + s_delay st.
+Proof. exact next_start_l. Qed.
+
+(* the documented recurrence of the interval *)
+Theorem interval_recurrence : forall c cur,
+  0 < snd (c_mult c) ->
+  increment c cur = Z.min (cur * fst (c_mult c) / snd (c_mult c)) (c_maxint c).
+Proof. exact increment_min. Qed.
+
+(* the configuration domain, from the translated Validate *)
+Theorem validate_domain : forall c,
+  valid_config c -> c_enabled c = true ->
+  0 <= c_init c /\ 0 <= fst (c_rf c) <= snd (c_rf c) /\ 0 <= fst (c_mult c) /\ 0 <= c_maxint c /\
+  0 <= c_maxel c /\ (0 < c_maxel c -> c_init c <= c_maxel c /\ c_maxint c <= c_maxel c).
+Proof. exact Proofs.validate_domain. Qed.
+
+(* ---- clause 4: only the named subset is resent ---------------------------------------------------------- *)
+Theorem resend_remainder_only : forall sc script k st st',
+  nth_error (steps_of sc script) k = Some st -> nth_error (steps_of sc script) (S k) = Some st' ->
+  exists ch, s_res st = RErr ch /\
+    s_payload st' = match partial_of (sc_sig sc) ch with Some rem => rem | None => s_payload st end.
+Proof. exact resend_remainder_only_l. Qed.
+
+Theorem first_payload : forall sc script st,
+  nth_error (steps_of sc script) 0 = Some st -> s_payload st = sc_payload sc /\ s_start st = 0.
+Proof. exact first_payload_l. Qed.
+
+(* if every partial failure names a sub-multiset of what it was sent, the payloads of the attempts
+   form a decreasing chain of sub-multisets of the original request *)
+Theorem payload_chain : forall sc script,
+  (forall k st ch rem, nth_error (steps_of sc script) k = Some st -> s_res st = RErr ch ->
+                       partial_of (sc_sig sc) ch = Some rem -> sub_ms rem (s_payload st)) ->
+  forall i j sti stj, (i <= j)%nat ->
+    nth_error (steps_of sc script) i = Some sti -> nth_error (steps_of sc script) j = Some stj ->
+    sub_ms (s_payload stj) (s_payload sti).
+Proof. exact payload_chain_l. Qed.
+
+(* ---- clause 5: shutdown ------------------------------------------------------------------------------------ *)
+
+(* a wait that is reached and into which the shutdown instant falls (no later than its timer — a tie
+   with the timer included — and before the end of the context) ends the run with a
+   shutdown-classified error *)
+Theorem shutdown_classified : forall sc script k st s,
+  nth_error (steps_of sc script) k = Some st -> reaches_wait sc st ->
+  sc_stop sc = Some s -> Z.max (s_end st) s <= s_end st + s_delay st ->
+  (forall c, ctx_done sc = Some c -> Z.max (s_end st) s < Z.max (s_end st) c) ->
+  verdict_of sc script = VShutdown /\ length (steps_of sc script) = S k /\ final_is_shutdown sc script = true.
+Proof. exact stop_in_wait_l. Qed.
+
+(* the shutdown verdict always yields IsShutdownErr and wraps the last error of the exporter *)
+Theorem shutdown_error_wraps_last : forall sc script,
+  verdict_of sc script = VShutdown ->
+  final_is_shutdown sc script = true /\
+  final_err (verdict_of sc script) (last_err (steps_of sc script)) = Some (LShutdown :: last_err (steps_of sc script)).
+Proof. exact shutdown_classified_l. Qed.
+
+(* and it is only ever returned when shutdown really arrived no later than the end of the last wait,
+   after a non-permanent failure *)
+Theorem shutdown_only_when_stopped : forall sc script,
+  verdict_of sc script = VShutdown ->
+  exists st s, last_opt (steps_of sc script) = Some st /\ sc_stop sc = Some s /\
+               s <= s_end st + s_delay st /\
+               exists ch, s_res st = RErr ch /\ is_permanent ch = false.
+Proof. exact shutdown_only_when_stopped_l. Qed.
+
+(* the symmetric statement for the caller's context *)
+Theorem cancel_in_wait : forall sc script k st c,
+  nth_error (steps_of sc script) k = Some st -> reaches_wait sc st ->
+  ctx_done sc = Some c -> Z.max (s_end st) c < s_end st + s_delay st ->
+  (forall s, sc_stop sc = Some s -> Z.max (s_end st) c < Z.max (s_end st) s) ->
+  verdict_of sc script = VCancelled /\ length (steps_of sc script) = S k.
+Proof. exact cancel_in_wait_l. Qed.
+
+(* "not retried while shutting down", FULL statement: no attempt ever STARTS at or after the shutdown
+   instant — whatever the configuration (initial_interval = 0 included), the delays, the draws and the
+   resolution of simultaneously ready select branches.  (Before fix 9628cae8b in /repo this was false
+   for zero delays: finding S4, then refuted by a witness; now repaired, and the former witness
+   scenario ends after one attempt with the shutdown verdict: Witness.ex_s4_fixed.) *)
+Theorem no_attempt_after_stop : forall sc script s,
+  sc_stop sc = Some s ->
+  forall k st', nth_error (steps_of sc script) (S k) = Some st' -> s_start st' < s.
+Proof. exact no_attempt_after_stop_l. Qed.
+
+(* ---- per-attempt timeout -------------------------------------------------------------------------------------- *)
+Theorem timeout_per_attempt : forall sc script k st,
+  nth_error (steps_of sc script) k = Some st ->
+  s_deadline st = omin (sc_deadline sc) (if sc_timeout sc =? 0 then None else Some (s_start st + sc_timeout sc)).
 Proof. exact timeout_per_attempt_l. Qed.
-Print Assumptions timeout_per_attempt_step.
+
+Print Assumptions retry_iff.
+Print Assumptions retry_iff_validated.
+Print Assumptions attempt_happens_iff.
+Print Assumptions wake_timer_iff.
+Print Assumptions retry_within_limits.
+Print Assumptions disabled_single_attempt.
+Print Assumptions no_attempt_after_verdict.
+Print Assumptions verdict_is_final.
+Print Assumptions wait_lower_bound.
+Print Assumptions wait_envelope.
+Print Assumptions next_start.
+Print Assumptions interval_recurrence.
+Print Assumptions validate_domain.
+Print Assumptions resend_remainder_only.
+Print Assumptions first_payload.
+Print Assumptions payload_chain.
+Print Assumptions shutdown_classified.
+Print Assumptions shutdown_error_wraps_last.
+Print Assumptions shutdown_only_when_stopped.
+Print Assumptions cancel_in_wait.
+Print Assumptions no_attempt_after_stop.
+Print Assumptions timeout_per_attempt.
